@@ -5,6 +5,7 @@ import (
 	"fmt"
 	"os"
 	"path/filepath"
+	"sort"
 	"strings"
 
 	"github.com/grafana/cog/internal/ast"
@@ -115,8 +116,16 @@ func (pipeline *Pipeline) interpolateParameters() {
 func (pipeline *Pipeline) interpolate(input string) string {
 	interpolated := input
 
-	for key, value := range pipeline.Parameters {
-		interpolated = strings.ReplaceAll(interpolated, "%"+key+"%", value)
+	// parameters are substituted in sorted key order: with parameters whose
+	// values mention other parameters, the result must not depend on map order.
+	keys := make([]string, 0, len(pipeline.Parameters))
+	for key := range pipeline.Parameters {
+		keys = append(keys, key)
+	}
+	sort.Strings(keys)
+
+	for _, key := range keys {
+		interpolated = strings.ReplaceAll(interpolated, "%"+key+"%", pipeline.Parameters[key])
 	}
 
 	return interpolated
